@@ -30,7 +30,8 @@ Theorem frontend_has_no_hash_iteration :
 Proof. exact frontend_has_no_hash_iteration. Qed.
 Print Assumptions frontend_has_no_hash_iteration.
 
-(** exactly three functions are classified order-relevant; each has a [_refuted] theorem below *)
+(** exactly three functions of the hand classification are order-relevant — all three describe the code AS FOUND,
+    each has a [_refuted] theorem below, and each was repaired in /repo: see section 7 for the current tree *)
 Theorem order_relevant_sites :
   order_relevant_functions =
   ["AstResolver::world_include"; "TypeAggregator::find_semver_compatible_interface"; "PlugCommand::exec"]%string.
@@ -116,13 +117,13 @@ Theorem world_include_missing_refuted : order_dependent missing_reported.
 Proof. exact world_include_missing_refuted. Qed.
 Print Assumptions world_include_missing_refuted.
 
-(** the proposed repair (first unused `with` item in source order) *)
+(** the repair c407668 (first unused `with` item in source order) *)
 Theorem world_include_missing_fixed_order_indep : forall with_items,
     order_independent (missing_reported_fixed with_items) (fun _ => True).
 Proof. intros w r1 r2 _ Hp. exact (world_include_missing_fixed_order_indep w r1 r2 Hp). Qed.
 Print Assumptions world_include_missing_fixed_order_indep.
 
-(** * 6. `wac plug` (handled under C19: CliTable.plug_grouping = GroupHash) *)
+(** * 6. `wac plug` as found (grouping in a HashMap; repaired by 415d296, see C19: CliTable.plug_grouping is now GroupInsertion) *)
 Theorem plug_sequence_refuted : order_dependent plug_sequence.
 Proof. exact plug_sequence_refuted. Qed.
 Print Assumptions plug_sequence_refuted.
@@ -233,3 +234,18 @@ Example rev_eoracle_valid :
 Proof.
   repeat split; intros; cbn; try (apply Permutation_sym, Permutation_rev); reflexivity.
 Qed.
+
+(** * 7. On the current tree no order-observing site is order-relevant.
+    [found_sites] is GENERATED from the sources on every run; the three order-relevant entries of the hand
+    classification ([order_relevant_sites]) describe the code AS FOUND and were repaired (c407668 world_include,
+    02411ca aggregator interface scan, 415d296 `wac plug` grouping): none of them occurs in the generated list any
+    more, so every hash iteration that exists in the code today is classified order-irrelevant (with its theorem
+    above, or its by-inspection label).  A change that brings one of them back regenerates the list and this
+    proof no longer checks. *)
+Definition class_of (s : site) : option class :=
+  option_map snd (find (fun p => site_eqb s (fst p)) modelled).
+
+Theorem no_found_site_is_order_relevant :
+  forallb (fun s => match class_of s with Some c => negb (is_relevant c) | None => false end) found_sites = true.
+Proof. vm_compute. reflexivity. Qed.
+Print Assumptions no_found_site_is_order_relevant.
